@@ -122,6 +122,16 @@ func runC03(r *Run) {
 	if r.Want("connfail") {
 		c03ConnFailureIsNotSuccess(r)
 	}
+	// the forced window between a RecvMsg's done-check and the read loop's finishing block (c02.go): the
+	// RecvMsg that crosses it must report how the handler finished (nil -> io.EOF, status -> that status)
+	if r.Want("window") {
+		c02Window(r)
+	}
+	// … and the stream workloads with randomised yields at the library's yield points: success at the
+	// caller iff the handler returned nil, its status otherwise (the streamSeq monitor's .eof / .status parts)
+	if r.Want("yields") {
+		c02Yields(r)
+	}
 }
 
 // c03ConnFailureIsNotSuccess: the connection dies in mid-stream (whatever error value the transport
